@@ -48,6 +48,7 @@ class Engine:
         self.noise_used = False
         self.noise_sites = []
         self.decided = {}
+        self.picked = {}
         self.freshn = 0
         self.declared = {}
         self.stats = dict(
@@ -109,6 +110,7 @@ class Engine:
         self.noise_used = False
         self.noise_sites = []
         self.decided = {}
+        self.picked = {}
         if not self.trail and model is not None:
             self.model = model
 
@@ -165,6 +167,9 @@ class Engine:
         """a concrete value of the integer term z on this path; the other feasible values are explored
         on other paths.  The value tried at each step is recorded in the decision trail, so that
         re-execution proposes the same values in the same order."""
+        zid = z.get_id()
+        if zid in self.picked:
+            return self.picked[zid]  # already fixed on this path
         for _ in range(100000):
             i = self.pos
             if i < len(self.trail):
@@ -186,12 +191,14 @@ class Engine:
             hit = self.decided.get(cond.get_id())
             if hit is not None:
                 if hit[0]:
+                    self.picked[zid] = v
                     return v
                 self.model = None
                 continue
             d = self._branch(cond, v)
             self.decided[cond.get_id()] = (d, cond)
             if d:
+                self.picked[zid] = v
                 return v
             if self.model is not None and z3.is_true(self.model.eval(cond, model_completion=True)):
                 self.model = None
